@@ -626,7 +626,7 @@ func raceSupplement(prop, tier string, master uint64, known []KnownFinding) race
 		ro.evidence = map[string]interface{}{"ran": false, "reason": "no race-detector binary (VERIF_RACE_BIN unset)"}
 		return ro
 	}
-	procs, secs := 4, 6
+	procs, secs := 4, 10
 	if tier == "thorough" {
 		procs, secs = 8, 90
 	}
